@@ -72,6 +72,46 @@ type Store struct {
 	txOpen    bool
 	txSeq     int
 	log       []string
+	// connection pool (database/sql keeps free connections on a stack: the most recently returned
+	// one is handed out next); per-connection state is what a PRAGMA leaves behind
+	freeConns []*connState
+}
+
+type connState struct {
+	queryOnly bool // PRAGMA query_only = ON was executed on this connection
+}
+
+func (st *Store) acquireConn() *connState {
+	if n := len(st.freeConns); n > 0 {
+		c := st.freeConns[n-1]
+		st.freeConns = st.freeConns[:n-1]
+		return c
+	}
+	return &connState{}
+}
+
+func (st *Store) releaseConn(c *connState) {
+	if c != nil {
+		st.freeConns = append(st.freeConns, c)
+	}
+}
+
+// nextConn: the connection a statement run through the DB handle would get (it goes back right after)
+func (st *Store) nextConn() *connState {
+	if n := len(st.freeConns); n > 0 {
+		return st.freeConns[n-1]
+	}
+	return nil
+}
+
+func sqlIsWrite(text string) bool {
+	t := strings.ToUpper(strings.TrimSpace(text))
+	for _, k := range []string{"INSERT", "UPDATE", "DELETE", "REPLACE", "CREATE", "DROP", "ALTER"} {
+		if strings.HasPrefix(t, k) {
+			return true
+		}
+	}
+	return false
 }
 
 func newStore() *Store {
@@ -1099,6 +1139,10 @@ func (st *Store) sharedLockHeldByOthers(tx *txHandle) string {
 }
 
 func (st *Store) finish(tx *txHandle) {
+	if !tx.done {
+		st.releaseConn(tx.conn)
+		tx.conn = nil
+	}
 	tx.done = true
 	tx.layer = nil
 	if st.writer == tx {
